@@ -10,13 +10,15 @@ from proptexts import TEXTS  # noqa: E402
 
 
 def theorems(prop):
-    p = os.path.join(VERIF, "lean", "Magog", "Props", f"{prop}.lean")
-    if not os.path.exists(p):
-        return []
-    src = open(p).read()
-    src = re.sub(r"/-.*?-/", "", src, flags=re.S)
-    src = re.sub(r"--.*", "", src)
-    return re.findall(r"^theorem\s+([A-Za-z0-9_.']+)", src, flags=re.M)
+    d = os.path.join(VERIF, "lean", "Magog", "Props")
+    out = []
+    mods = sorted(fn for fn in os.listdir(d) if fn.endswith(".lean") and fn.startswith(prop) and (fn == prop + ".lean" or fn[len(prop)].isalpha()))
+    for fn in sorted(mods, key=lambda x: (x != prop + ".lean", x)):
+        src = open(os.path.join(d, fn)).read()
+        src = re.sub(r"/-.*?-/", "", src, flags=re.S)
+        src = re.sub(r"--.*", "", src)
+        out += re.findall(r"^theorem\s+([A-Za-z0-9_.']+)", src, flags=re.M)
+    return out
 
 
 def main():
